@@ -41,6 +41,7 @@ class Spec(DiffSpec):
         return [
             {"name": "reference", "hashseed": 0, "args": dict(base)},
             {"name": "fresh environment, same seed and ops", "hashseed": 0, "args": dict(base), "kind": "a"},
+            {"name": "fresh environment built from the dict a fresh scheduler yields for that episode", "hashseed": 0, "args": dict(base), "kind": "s"},
             {"name": "second instance B with the same scenario interleaved", "hashseed": 0, "args": dict(base), "kind": "b", "b": "same"},
             {"name": "second instance B with NMNE capture toggled interleaved", "hashseed": 0, "args": dict(base), "kind": "b", "b": "nmne"},
             {"name": "second instance B with all logging/io on interleaved", "hashseed": 0, "args": dict(base), "kind": "b", "b": "io"},
@@ -62,6 +63,12 @@ class Spec(DiffSpec):
         if case["kind"] == "a":
             k = next(i for i, o in enumerate(ops) if o[0] == "mark")
             a["ops"] = ops[k:]
+        elif case["kind"] == "s":
+            k = next(i for i, o in enumerate(ops) if o[0] == "mark")
+            a["ops"] = ops[k:]
+            a.pop("scenario", None)
+            a["schedule_dir"] = case["schedule_dir"]
+            a["schedule_episode"] = ref_result["episode_at_mark"]
         else:
             a["ops"] = self.interleave_b(ops, ref_result["scenario"], variant["b"], case["seed"])
         return a
@@ -104,17 +111,25 @@ class Spec(DiffSpec):
         for kind in ("a", "b"):
             for name, mel in shipped:
                 s = base_seed * 1000003 + 940000 + len(name) + (7 if kind == "b" else 0)
-                c = {"seed": s, "shipped": name, "max_episode_length": mel, "monitors": [], "kind": kind, "io": dict(IO_OFF), "first_reset_seed": s % 1000, "op_mix": {"step": 0.9, "reset": 0.04, "fault": 0.06}}
+                c = {"seed": s, "shipped": name, "max_episode_length": mel, "monitors": [], "kind": kind, "io": dict(IO_OFF), "first_reset_seed": s % 1000, "op_mix": {"step": 0.9, "reset": 0.04, "fault": 0.06}, "record_state": True}
                 if kind == "a":
                     c.update({"n_ops": 45, "mark_at": 22, "mark_reset_seed": s % 977, "identity_walk": True, "profile": {"push": 0.1}})
                 else:
                     c.update({"n_ops": 25})
                 yield c
+        # episode-scheduled scenarios shipped as directories: several quick episodes (past the end of the schedule now and
+        # then: it loops), then the compared episode
+        dirs = [("mini_scenario_with_simulation_variation", 6, 3), ("scenario_with_placeholders", 6, 3), ("uc7_multiple_attack_variants", 2, 3)]
+        for rep in range(2 if tier == "quick" else 10):
+            for d, per_ep, neps in dirs:
+                s = base_seed * 1000003 + 941000 + rep * 100 + len(d)
+                ne = neps + rep % 3
+                yield {"seed": s, "schedule_dir": d, "monitors": [], "kind": "s", "first_reset_seed": s % 1000, "op_mix": {"step": 1.0 - 1.0 / per_ep, "reset": 1.0 / per_ep, "fault": 0.0}, "n_ops": ne * per_ep + 8, "mark_at": ne * per_ep, "mark_reset_seed": s % 977, "identity_walk": True, "record_state": True, "no_reset_after_mark": True}
         for i in range(n):
             s = base_seed * 1000003 + 40000000 + i
             kind = "a" if i % 2 == 0 else "b"
             prof = {"n_green": (0, 2), "n_red": (0, 2), "tight_links": 0.15, "push": 0.15, "avoid": ["listen_on_ports", "routing_loop"], "nmne": 0.6}
-            c = {"seed": s, "profile": prof, "monitors": [], "kind": kind, "first_reset_seed": s % 1000, "op_mix": {"step": 0.8, "reset": 0.05, "fault": 0.15}}
+            c = {"seed": s, "profile": prof, "monitors": [], "kind": kind, "first_reset_seed": s % 1000, "op_mix": {"step": 0.8, "reset": 0.05, "fault": 0.15}, "record_state": True}
             if kind == "a":
                 h = 25 + (i % 3) * 12
                 c.update({"n_ops": h + 25, "mark_at": h, "mark_reset_seed": s % 977, "identity_walk": True})
